@@ -274,6 +274,27 @@ pub struct ClusterEnd {
 
 static CTR: std::sync::atomic::AtomicU64 = std::sync::atomic::AtomicU64::new(0);
 
+/// Watchdog of every cluster run: once the scripted CLI has finished (board "end"), the main process must leave `run()`
+/// within two virtual minutes; it is then pushed (run_state = Stopping), and if it is still inside `run()` a minute
+/// later the run is reported as `no_exit` and the process image is replaced (framework::fatal_violation).
+struct HubWatchdog { force: ForceStop, deadline: u64, pushed: bool }
+impl crate::world::Actor for HubWatchdog {
+    fn name(&self) -> String { "hub-watchdog".into() }
+    fn as_any(&mut self) -> &mut dyn std::any::Any { self }
+    fn as_any_ref(&self) -> &dyn std::any::Any { self }
+    fn class(&self) -> u8 { 2 }
+    fn step(&mut self, w: &mut World) -> crate::world::Step {
+        use crate::world::Step;
+        if w.board_get("hub_returned") > 0 { return Step::Done; }
+        if w.board_get("end") == 0 { return Step::Blocked; }
+        if self.deadline == 0 { self.deadline = w.now + 120 * SEC; }
+        if w.now < self.deadline { return Step::Idle(self.deadline); }
+        if !self.pushed { self.pushed = true; self.force.fire(); self.deadline = w.now + 60 * SEC; return Step::Idle(self.deadline); }
+        eprintln!("clustersim: the main process does not leave run() even when forced");
+        crate::framework::fatal_violation(w.seed, "cluster_main_wedged", "the main process ignores its own Stopping state", crate::framework::Violation::new("no_exit", "main_process_never_leaves_run", "the main process was told to stop (run_state = Stopping) and was still inside run() a virtual minute later".to_string()));
+    }
+}
+
 /// Runs one cluster (hub + workers) to completion. The hub runs on the *current* thread, which must be
 /// a fresh thread with `world` not yet installed. `setup` adds the actors.
 pub fn run_cluster(world: &mut Box<World>, knobs: &ClusterKnobs, setup: impl FnOnce(&mut World, &ClusterEnv)) -> ClusterEnd {
@@ -319,6 +340,7 @@ pub fn run_cluster(world: &mut Box<World>, knobs: &ClusterKnobs, setup: impl FnO
     if let Some(h) = hub.as_mut() {
         let env = ClusterEnv { sock_name, force: ForceStop(&mut h.server.run_state as *mut ServerState), exits: exits.clone() };
         setup(world, &env);
+        world.add_actor(Box::new(HubWatchdog { force: env.force, deadline: 0, pushed: false }));
     }
     if end.boot_error.is_none() {
         let h = hub.as_mut().unwrap();
